@@ -24,6 +24,9 @@ CHECKS['C14'] = dict(cat='model_checking', tech='deviation-bounded exhaustive en
 CHECKS['C19'] = dict(cat='model_checking', tech='explicit-state BFS over value/list/table/packet operation sequences on the real library under ASan/UBSan, ownership-aware Python value model, dedup on deep dumps',
       text='Breadth-first exploration of all operation sequences (create/init/copy/parse/clone/clean/free; list insert/set/get/remove at index 0, last, size, size+1 incl. the alias case and capacity steps; table and packet set/get/remove with case / NFC / NFD / empty / invalid keys; wrong-kind calls) on two owned value slots, two borrowed member references and one packet up to depth 5 (quick) / 6 (thorough). After every transition the return code and the deep dump of every live object are compared with the model; ASan/UBSan judge every execution.',
       note='The model drops borrowed references after a structural change of their container (their validity is unspecified). Table key order is compared as a set, packet name order as a sequence.', ref='C19')
+CHECKS['C15'] = dict(cat='model_checking', tech='deviation-bounded exhaustive enumeration of handler programs on the real cif_parse in storing and syntax-only mode, AST reference for callback log and stored content',
+      text='For 7 generated well-formed documents (scalars, loops, frames, lists/tables, comments, several blocks) every handler program with at most 3 (quick) / 4 (thorough) non-CONTINUE answers out of {SKIP_CURRENT, SKIP_SIBLINGS, END, positive code} is parsed twice on the real library - into a new CIF and syntax-only - with handler and syntax callbacks logged. A reference walking the AST in document order checks the callback sequence, item names/values, the return code, that nothing is delivered for bypassed entities or after END/error, that the stored content is exactly what was accepted, and that both modes produce the same sequence.',
+      note='Where the statement is silent (end callback after a SKIP answer, existence of the empty container whose own start callback answered SKIP, effect of SKIP answered by packet_end or by an item inside a packet, content of the element in progress when END is answered) both outcomes are admitted.', ref='C15')
 NOT_APPLICABLE = {}
 
 def main():
